@@ -22,6 +22,7 @@ import (
 	"github.com/IrineSistiana/mosproxy/internal/mlog"
 	"github.com/IrineSistiana/mosproxy/internal/zzverif/choice"
 	"github.com/IrineSistiana/mosproxy/internal/zzverif/env"
+	"github.com/IrineSistiana/mosproxy/internal/zzverif/pause"
 	"github.com/IrineSistiana/mosproxy/internal/zzverif/refdns"
 	"github.com/IrineSistiana/mosproxy/internal/zzverif/report"
 	"github.com/rs/zerolog"
@@ -334,6 +335,10 @@ func runExplore(t *testing.T, rep *report.R, bound int, scenario func(c *choice.
 	}
 	rep.Count("replay_divergences_rerun", st.Divergences)
 	rep.Count("divergent_executions_accepted", st.DivergentAccepted)
+	if pauseMode {
+		rep.Count("executions_with_a_goroutine_held_at_a_pause_point", pz.n)
+		rep.Note("E4: every statement boundary of the instrumented implementation files that an explored execution reaches (first PAUSEHITS hits per point) was a choice point 'this goroutine stands still here until resumed'; at most one such preemption per execution, never inside a critical section, never across virtual time")
+	}
 	return st
 }
 
@@ -363,12 +368,22 @@ func wait() {
 	synctest.Wait()
 	hmu.Lock()
 	report.Progress()
+	if pz.abort {
+		pz.abort = false
+		pz.c = nil
+		choice.AbortUnowned()
+	}
 }
 
 func hsleep(d time.Duration) {
+	if resume() {
+		wait() // virtual time never passes while a goroutine is held at a pause point: a preemption is short
+	}
+	pz.sleepUntil = time.Now().Add(d)
 	hmu.Unlock()
 	time.Sleep(d)
 	hmu.Lock()
+	pz.sleepUntil = time.Time{}
 }
 
 // publish runs f (which stores results read by the harness) under hmu.
@@ -376,4 +391,102 @@ func publish(f func()) {
 	hmu.Lock()
 	f()
 	hmu.Unlock()
+}
+
+// ---- E4: pause points (DESIGN 9.13); see harness/transport/zz_verif_common_test.go for the commentary.
+var pz struct {
+	c    *choice.Ctx
+	ch   chan struct{}
+	at   string
+	used bool
+	hits map[string]int
+	cap  int
+	n    int64
+
+	window, windows, step int
+
+	abort bool // an unowned-subtree signal was caught on an implementation goroutine
+
+	sleepUntil time.Time
+}
+
+var pauseMode = report.ParamInt("PAUSE", 0) > 0
+
+func pauseBegin(c *choice.Ctx) {
+	if !pauseMode {
+		return
+	}
+	pz.c, pz.ch, pz.at, pz.used, pz.abort = c, nil, "", false, false
+	// The pause space is partitioned by the harness step during whose reaction the goroutine is stopped: the window is the
+	// first choice of the execution, which spreads the subtrees over the worker processes (pause choice points are binary
+	// with a heavy default branch; as leading choices they would leave all the work to one shard).
+	pz.windows = report.ParamInt("PAUSEWINDOWS", 7)
+	pz.window, pz.step = c.Choose(pz.windows, "pause-window"), 0
+	pz.hits = map[string]int{}
+	pz.cap = report.ParamInt("PAUSEHITS", 1)
+	pause.Hook = pauseHook
+	pause.Enable(true)
+}
+
+func pauseHook(id string) {
+	var ch chan struct{}
+	publish(func() {
+		if pz.c == nil || pz.used || pz.abort {
+			return
+		}
+		if st := min(pz.step, pz.windows-1); st != pz.window {
+			return
+		}
+		defer func() {
+			// the choice point may be the one at which the search core finds that this subtree is another worker's: the
+			// signal is raised again on the harness goroutine (in wait), where Explore recovers it
+			if r := recover(); r != nil {
+				if !choice.IsUnowned(r) {
+					panic(r)
+				}
+				pz.abort = true
+			}
+		}()
+		if !pz.sleepUntil.IsZero() && time.Now().Before(pz.sleepUntil) {
+			return
+		}
+		pz.hits[id]++
+		if pz.hits[id] > pz.cap {
+			return
+		}
+		if pz.c.Choose(2, "pause@"+id) == 1 {
+			pz.used = true
+			pause.Enable(false)
+			ch = make(chan struct{})
+			pz.ch, pz.at = ch, id
+			pz.n++
+		}
+	})
+	if ch != nil {
+		<-ch
+	}
+}
+
+func paused() bool { return pz.ch != nil }
+
+func pauseNote() string {
+	if pz.used {
+		return " [one goroutine stood still before " + pz.at + " until resumed]"
+	}
+	return ""
+}
+
+func resume() bool {
+	if pz.ch != nil {
+		close(pz.ch)
+		pz.ch = nil
+		return true
+	}
+	return false
+}
+
+func pauseEnd() {
+	pause.Enable(false)
+	pz.c = nil
+	resume()
 }
